@@ -161,7 +161,8 @@ def tlsOp (what : String) (t : Nat) (k : Nat) (v : Nat) : Option Ev :=
 
 /-- options of `create`: `n` / `n<LEN>` (name), `x` (child runs into the proxy while the creator is inside
     `p_uthread_create_full`), `p<0-7>` / `s<KB>` (`p_uthread_create_full`), `eperm` (first native create fails, the library
-    retries), `eagain` (native create fails: NULL).  `none` = malformed. -/
+    retries), `eagain` / `fail:attr` / `fail:detach` (`pthread_create` / `pthread_attr_init` / `pthread_attr_setdetachstate`
+    fails: NULL).  `none` = malformed. -/
 structure COpts where
   named : Bool := false
   early : Bool := false
@@ -179,7 +180,7 @@ def parseCOpts : List String → COpts → Option COpts
   | x :: r, o =>
     if x = "n" then parseCOpts r { o with named := true }
     else if x = "x" then parseCOpts r { o with early := true, modes := o.modes + 1 }
-    else if x = "eagain" then parseCOpts r { o with fail := true, modes := o.modes + 1 }
+    else if x = "eagain" ∨ x = "fail:attr" ∨ x = "fail:detach" then parseCOpts r { o with fail := true, modes := o.modes + 1 }
     else if x = "eperm" then parseCOpts r { o with modes := o.modes + 1 }
     else if x.startsWith "n" ∧ digitsOk x 4 ∧ numOf x ≤ 1000 then parseCOpts r { o with named := true }
     else if x.startsWith "p" ∧ digitsOk x 4 ∧ numOf x ≤ 7 then parseCOpts r o
@@ -261,8 +262,9 @@ def step (s : St) (toks : List String) : IO (St × Bool) := do
         | some o =>
           let j := jd ≠ "d"
           if o.fail then
-            -- `pthread_create` fails: the block is freed again, the spinlock released, NULL: no event of the machine
-            if ¬ canAct m a ∨ m.spin.isSome then bad else idle "null"
+            -- `pthread_attr_init` / `pthread_attr_setdetachstate` / `pthread_create` fails: the block is freed again, the
+            -- spinlock released, NULL (`createFail`: the block takes a handle id and shows up in `F=`)
+            fin [.createFail a] "null"
           else if o.early then
             -- the child passes `p_uthread_set_local (library key)` and reaches the spinlock inside the creator's critical section
             let t := m.nT
@@ -305,6 +307,11 @@ def step (s : St) (toks : List String) : IO (St × Bool) := do
       | ["join", h] =>
         match h.toNat? with
         | some h => if s.joining.any (·.2 = h) then bad else fin [.join a h] "value"
+        | none => bad
+      | ["join", h, "fail"] =>
+        -- the native `pthread_join` reports an error: the call comes back at once with the code recorded so far
+        match h.toNat? with
+        | some h => if s.joining.any (·.2 = h) then bad else fin [.joinFail a h] "value"
         | none => bad
       | ["jbegin", h] =>
         -- `p_uthread_join` issued while the target has not ended: the call blocks (the machine's `join` is not enabled)
